@@ -68,14 +68,23 @@ func (s *c32sim) observeDirect(pred, t *trcSpec, valid bool, why string) {
 	acc, stage := directAccepts(predRaw, s.p.build(t))
 	r.Logf("direct %s as successor of %s [%s]: label valid=%v (%s) -> accepted=%v (%s)", t.idString(), idOrNone(pred),
 		t.note, valid, why, acc, stage)
-	r.Covered(fmt.Sprintf("direct/%s/%s/%s", t.note, why, stage))
+	r.Covered(fmt.Sprintf("direct/%s/%s/%s", noteClass(t.note), why, stage))
 	switch {
 	case acc && !valid:
 		r.Fail("c32-invalid-accepted", "direct:"+t.note, "SignedTRC.Verify accepted %s (%s) as successor of %s although %s\npred: %v\nthis: %v",
 			t.idString(), t.note, idOrNone(pred), why, pred, t)
 	case !acc && valid:
-		r.Fail("c32-valid-rejected", "direct:"+why, "honest %s update %s rejected at %s\npred: %v\nthis: %v", why, t.idString(), stage, pred, t)
+		r.Fail("c32-valid-rejected", "direct:"+why, "valid %s TRC %s (%s) rejected at %s as successor of %s\npred: %v\nthis: %v", why, t.idString(), t.note,
+			stage, idOrNone(pred), pred, t)
 	}
+}
+
+// noteClass shortens the notes of randomly mutated successors for the coverage measure.
+func noteClass(note string) string {
+	if len(note) > 8 && note[:8] == "mutated." {
+		return "mutated"
+	}
+	return note
 }
 
 func idOrNone(t *trcSpec) string {
@@ -116,7 +125,7 @@ func (s *c32sim) catchUp(i, upto int) {
 	}
 	s.serve(i, nil, cppki.TRCID{})
 	n := s.nodes[i]
-	err := n.notify(s.chain[upto].id())
+	err, _ := n.notify(s.chain[upto].id())
 	got := n.stored()
 	r.Logf("%s notified of %s while holding %s: err=%v fetches=%d store:%s", n.name, s.chain[upto].idString(),
 		s.chain[s.at[i]].idString(), err != nil, len(n.f.calls), storedString(got))
@@ -151,11 +160,11 @@ func (s *c32sim) offerForged(i, t int, f *trcSpec, why string) {
 	next.Serial++
 	before := storedString(n.stored())
 	s.serve(i, f, next)
-	err := n.notify(next)
+	err, _ := n.notify(next)
 	after := storedString(n.stored())
 	r.Logf("%s holding %s notified of %s, transport serves %s [%s]: err=%v fetches=%d store:%s", n.name, pred.idString(),
 		next, f.idString(), f.note, err != nil, len(n.f.calls), after)
-	r.Covered("store/" + f.note)
+	r.Covered("store/" + noteClass(f.note))
 	if after != before {
 		r.Fail("c32-invalid-accepted", "store:"+f.note, "%s stored %s (%s) as successor of %s although %s; store before%s after%s\npred: %v\nthis: %v",
 			n.name, f.idString(), f.note, pred.idString(), why, before, after, pred, f)
@@ -225,6 +234,22 @@ func runC32(r *core.Run, faulty bool) {
 						return
 					}
 					s.offerForged(r.Choice("forge.victim", nAS), step, f, w)
+					if r.Failed() {
+						return
+					}
+				}
+			}
+			if faulty && r.FaultChance("mutated", 1, 2) {
+				// an honest successor with random edits; only the reference judge knows whether it is still valid
+				m := g.mutate(pred, now)
+				v, w := judge(pred, m)
+				r.Fault(map[bool]string{true: "mutated.still-valid", false: "mutated.invalid"}[v])
+				s.observeDirect(pred, m, v, w)
+				if r.Failed() {
+					return
+				}
+				if !v {
+					s.offerForged(r.Choice("forge.victim", nAS), step, m, w)
 					if r.Failed() {
 						return
 					}
